@@ -142,7 +142,7 @@ theorem mem_digests (ps : Pkg) : ∀ (d0 : SMap) (n s : Bytes),
 def keptOf (pkg : Pkg) : Pkg := pkg.filter (fun p => keepFile p.name)
 
 /-- the callback keeps exactly the members `keepFile` accepts, in order, and records the last member of each name -/
-theorem mangle_spec (E : Env) : ∀ (pkg : Pkg) (m0 m : Mangled), mangle E pkg m0 = .ok m →
+theorem mangle_spec (fx : Bool) (E : Env) : ∀ (pkg : Pkg) (m0 m : Mangled), mangle fx E pkg m0 = .ok m →
     m.kept = m0.kept ++ keptOf pkg ∧
     m.digests = (keptOf pkg).foldl (fun d p => mset d p.name p.data) m0.digests := by
   intro pkg
@@ -153,8 +153,10 @@ theorem mangle_spec (E : Env) : ∀ (pkg : Pkg) (m0 m : Mangled), mangle E pkg m
     simp only [mangle] at h
     by_cases hk : keepFile p.name = true
     · simp only [hk, if_true] at h
-      obtain ⟨h1, h2⟩ := ih _ _ h
-      simp [keptOf, hk, h1, h2] at *
+      split at h
+      · cases h
+      · obtain ⟨h1, h2⟩ := ih _ _ h
+        simp [keptOf, hk, h1, h2] at *
     · simp only [hk] at h
       have hk' : keepFile p.name = false := by simpa using hk
       by_cases hc : p.name = sContentTypes
@@ -169,9 +171,98 @@ theorem mangle_spec (E : Env) : ∀ (pkg : Pkg) (m0 m : Mangled), mangle E pkg m
         obtain ⟨h1, h2⟩ := ih _ _ h
         simp [keptOf, hk', h1, h2] at *
 
+def keys (m : SMap) : List Bytes := m.map (·.1)
+
+theorem mem_keys_mset {m : SMap} {k v k' : Bytes} : k' ∈ keys (mset m k v) ↔ k' = k ∨ k' ∈ keys m := by
+  simp only [keys, List.mem_map]
+  constructor
+  · rintro ⟨e, he, rfl⟩
+    rcases mem_mset.mp (show (e.1, e.2) ∈ mset m k v from he) with ⟨-, h⟩ | ⟨h, -⟩
+    · exact Or.inr ⟨e, h, rfl⟩
+    · exact Or.inl h
+  · rintro (rfl | ⟨e, he, rfl⟩)
+    · exact ⟨(k', v), mem_mset.mpr (Or.inr ⟨rfl, rfl⟩), rfl⟩
+    · by_cases hk : e.1 = k
+      · exact ⟨(k, v), mem_mset.mpr (Or.inr ⟨rfl, rfl⟩), hk.symm⟩
+      · exact ⟨e, mem_mset.mpr (Or.inl ⟨hk, he⟩), rfl⟩
+
+theorem any_key_iff (m : SMap) (n : Bytes) : m.any (fun e => e.1 = n) = true ↔ n ∈ keys m := by
+  simp only [List.any_eq_true, decide_eq_true_eq, keys, List.mem_map]
+
+/-- the repaired callback refuses a second kept member of a name -/
+theorem mangle_nodup (E : Env) : ∀ (pkg : Pkg) (m0 m : Mangled), mangle true E pkg m0 = .ok m →
+    ((keptOf pkg).map (·.name)).Nodup ∧ ∀ p ∈ keptOf pkg, p.name ∉ keys m0.digests := by
+  intro pkg
+  induction pkg with
+  | nil => intro m0 m _; simp [keptOf]
+  | cons p ps ih =>
+    intro m0 m h
+    simp only [mangle] at h
+    by_cases hk : keepFile p.name = true
+    · simp only [hk, if_true, Bool.true_and] at h
+      by_cases hd : m0.digests.any (fun e => e.1 = p.name) = true
+      · simp [hd] at h
+      · simp only [hd] at h
+        obtain ⟨h1, h2⟩ := ih _ _ h
+        have hnk : p.name ∉ keys m0.digests := fun hm => hd ((any_key_iff _ _).mpr hm)
+        simp only [keptOf, List.filter_cons, hk, if_true, List.map_cons, List.nodup_cons, List.mem_cons, forall_eq_or_imp]
+        refine ⟨⟨?_, h1⟩, hnk, ?_⟩
+        · intro hmem
+          obtain ⟨q, hq, hqn⟩ := List.mem_map.mp hmem
+          exact h2 q hq (by rw [hqn]; exact mem_keys_mset.mpr (Or.inl rfl))
+        · intro q hq hqk
+          exact h2 q hq (mem_keys_mset.mpr (Or.inr hqk))
+    · have hk' : keepFile p.name = false := by simpa using hk
+      simp only [hk', Bool.false_eq_true, if_false] at h
+      have hkept : keptOf (p :: ps) = keptOf ps := by simp [keptOf, hk']
+      rw [hkept]
+      by_cases hc : p.name = sContentTypes
+      · simp only [hc, if_true] at h
+        cases hp : E.parseCT p.data with
+        | none => simp [hp] at h
+        | some t => simp only [hp] at h; exact ih { m0 with ct := ctParse m0.ct t.1 t.2 } m h
+      · simp only [hc, if_false] at h
+        exact ih _ _ h
+
+/-- without a second kept member of any name the repaired callback does what the old one did -/
+theorem mangle_true_of_false (E : Env) : ∀ (pkg : Pkg) (m0 m : Mangled), mangle false E pkg m0 = .ok m →
+    ((keptOf pkg).map (·.name)).Nodup → (∀ p ∈ keptOf pkg, p.name ∉ keys m0.digests) → mangle true E pkg m0 = .ok m := by
+  intro pkg
+  induction pkg with
+  | nil => intro m0 m h _ _; simpa [mangle] using h
+  | cons p ps ih =>
+    intro m0 m h hnd hnot
+    simp only [mangle] at h ⊢
+    by_cases hk : keepFile p.name = true
+    · simp only [hk, if_true, Bool.false_and, Bool.false_eq_true, if_false, Bool.true_and] at h ⊢
+      have hkept : keptOf (p :: ps) = p :: keptOf ps := by simp [keptOf, hk]
+      rw [hkept] at hnd hnot
+      simp only [List.map_cons, List.nodup_cons] at hnd
+      have hd : m0.digests.any (fun e => e.1 = p.name) = false := by
+        cases hx : m0.digests.any (fun e => e.1 = p.name) with
+        | false => rfl
+        | true => exact absurd ((any_key_iff _ _).mp hx) (hnot p List.mem_cons_self)
+      simp only [hd, Bool.false_eq_true, if_false]
+      apply ih _ _ h hnd.2
+      intro q hq hqk
+      rcases mem_keys_mset.mp hqk with h1 | h1
+      · exact hnd.1 (by rw [← h1]; exact List.mem_map_of_mem hq)
+      · exact hnot q (List.mem_cons_of_mem _ hq) h1
+    · have hk' : keepFile p.name = false := by simpa using hk
+      simp only [hk', Bool.false_eq_true, if_false] at h ⊢
+      have hkept : keptOf (p :: ps) = keptOf ps := by simp [keptOf, hk']
+      rw [hkept] at hnd hnot
+      by_cases hc : p.name = sContentTypes
+      · simp only [hc, if_true] at h ⊢
+        cases hp : E.parseCT p.data with
+        | none => simp [hp] at h
+        | some t => simp only [hp] at h ⊢; exact ih { m0 with ct := ctParse m0.ct t.1 t.2 } m h hnd hnot
+      · simp only [hc, if_false] at h ⊢
+        exact ih _ _ h hnd hnot
+
 /-! ### the reference list -/
 
-theorem mkRefs_spec (c : CT) : ∀ (l : SMap) (refs : List Ref), mkRefs c l = .ok refs →
+theorem mkRefs_spec (fx : Bool) (c : CT) : ∀ (l : SMap) (refs : List Ref), mkRefs fx c l = .ok refs →
     refs.map (fun r => (r.name, r.stream)) = l := by
   intro l
   induction l with
@@ -179,14 +270,84 @@ theorem mkRefs_spec (c : CT) : ∀ (l : SMap) (refs : List Ref), mkRefs c l = .o
   | cons e es ih =>
     intro refs h
     simp only [mkRefs] at h
-    cases hc : refCType c e.1 with
+    cases hc : refCType fx c e.1 with
     | ok ct =>
       simp only [hc] at h
-      cases hr : mkRefs c es with
+      split at h
+      · cases h
+      · cases hr : mkRefs fx c es with
+        | ok rs =>
+          simp only [hr, Res.ok.injEq] at h
+          subst h
+          simp [ih rs hr]
+        | err x => simp [hr] at h
+        | panic x => simp [hr] at h
+        | diverge => simp [hr] at h
+    | err x => simp [hc] at h
+    | panic x => simp [hc] at h
+    | diverge => simp [hc] at h
+
+/-- the repaired loop only lets through names that the verifier's URI mapping gives back -/
+theorem mkRefs_refsOk (c : CT) : ∀ (l : SMap) (refs : List Ref), mkRefs true c l = .ok refs → refsOk refs = true := by
+  intro l
+  induction l with
+  | nil => intro refs h; simp only [mkRefs, Res.ok.injEq] at h; subst h; rfl
+  | cons e es ih =>
+    intro refs h
+    simp only [mkRefs] at h
+    cases hc : refCType true c e.1 with
+    | ok ct =>
+      simp only [hc, Bool.true_and] at h
+      by_cases hu : uriPath (Ref.uri ⟨e.1, ct, e.2⟩) = e.1
+      · simp only [hu, ne_eq, not_true_eq_false, decide_false, Bool.false_eq_true, if_false] at h
+        cases hr : mkRefs true c es with
+        | ok rs =>
+          simp only [hr, Res.ok.injEq] at h
+          subst h
+          have := ih rs hr
+          simp only [refsOk, List.all_cons, Bool.and_eq_true, decide_eq_true_eq] at this ⊢
+          exact ⟨hu, this⟩
+        | err x => simp [hr] at h
+        | panic x => simp [hr] at h
+        | diverge => simp [hr] at h
+      · simp [hu] at h
+    | err x => simp [hc] at h
+    | panic x => simp [hc] at h
+    | diverge => simp [hc] at h
+
+theorem refCType_true_of_false {c : CT} {n ct : Bytes} (h : refCType false c n = .ok ct) : refCType true c n = .ok ct := by
+  unfold refCType at h ⊢
+  by_cases hf : ctFind c n = []
+  · cases he : pathExt (pathBase n) with
+    | nil => simp [hf, he] at h
+    | cons d rest => simpa [hf, he] using h
+  · simpa [hf] using h
+
+/-- what the repaired loop does where the old one succeeded -/
+theorem mkRefs_true_of_false (c : CT) : ∀ (l : SMap) (refs : List Ref), mkRefs false c l = .ok refs →
+    (refsOk refs = true → mkRefs true c l = .ok refs) ∧ (refsOk refs = false → mkRefs true c l = .err "unreferencable") := by
+  intro l
+  induction l with
+  | nil => intro refs h; simp only [mkRefs, Res.ok.injEq] at h; subst h; simp [mkRefs, refsOk]
+  | cons e es ih =>
+    intro refs h
+    simp only [mkRefs] at h
+    cases hc : refCType false c e.1 with
+    | ok ct =>
+      simp only [hc, Bool.false_and, Bool.false_eq_true, if_false] at h
+      cases hr : mkRefs false c es with
       | ok rs =>
         simp only [hr, Res.ok.injEq] at h
         subst h
-        simp [ih rs hr]
+        obtain ⟨ih1, ih2⟩ := ih rs hr
+        simp only [mkRefs, refCType_true_of_false hc, Bool.true_and, refsOk, List.all_cons, Bool.and_eq_true, decide_eq_true_eq,
+          Bool.and_eq_false_iff, decide_eq_false_iff_not]
+        by_cases hu : uriPath (Ref.uri ⟨e.1, ct, e.2⟩) = e.1
+        · simp only [hu, ne_eq, not_true_eq_false, decide_false, Bool.false_eq_true, if_false, true_and, false_or]
+          constructor
+          · intro hok; rw [ih1 hok]
+          · intro hbad; rw [ih2 hbad]
+        · simp [hu]
       | err x => simp [hr] at h
       | panic x => simp [hr] at h
       | diverge => simp [hr] at h
